@@ -15,7 +15,10 @@
 
    Bugs (a set of names) switches on pre-fix behaviour of the code and seeded defects:
      "dup_readd"   add_config resolves default_fetch_as by appending on every call (code as found)
-     "mem_raises"  _setup_log_elements raises TypeError at a raw-memory variable (code as found)
+     "mem_raises"  _setup_log_elements raises TypeError at a raw-memory variable (code as found, repaired since)
+     "partial_resolve"  add_config appends the default-typed names before the first one missing from the table
+                   and keeps default_fetch_as when it raises KeyError (code as found)
+     "reset_when_accepted", "stale_layout"   seeded defects around configurations that change / are re-added
      "skip_on_split", "size_lt", "period_le_255", "optimistic_start", "ack_any_block",
      "start_on_error", "slice_by_stored"   seeded defects (vacuity guards)
    With Bugs = {} the spec is the repaired behaviour: default_fetch_as is cleared once resolved;
@@ -33,6 +36,8 @@ CONSTANTS NC,            \* LogConfig objects 1..NC
           MaxOps,        \* user calls + reconnects per behaviour
           MaxFaults,     \* injections + lost acknowledgements per behaviour
           MaxData,       \* data packets per behaviour
+          MaxLate,       \* add_variable/add_memory calls on a configuration that was already added
+          TocAlts,       \* device tables a later session may find instead (firmware update between sessions)
           IdMod,         \* 255 in the code
           Bugs,
           WithSync       \* configuration 1 is used through a SyncLogger
@@ -63,13 +68,14 @@ VARIABLES toc,
           sync,        \* [on : _is_connected, q : the queue, st : "none"|"connecting"|"iter"|"stopped" (user thread),
                        \*  yields, samples, disc, early, cb/dcb : data/disconnected callback registered, drained]
           \* bounds and history
-          nops, nfaults, ndata,
+          nops, nfaults, ndata, nlate,
+          layout,      \* only with Bugs "stale_layout": data layout cached by the LogConfig at its first data packet
           ref, hasref, \* variable list fixed by the first successful add_config
           lastok,      \* the last add_config of the LogConfig returned normally
           obs
 
 vars == <<toc, conf, phase, cur, tpl, lvars, ldef, valid, cid, hascf, added, started, pending, blocks,
-          idctr, link, dev, acks, inject, sync, nops, nfaults, ndata, ref, hasref, lastok, obs>>
+          idctr, link, dev, acks, inject, sync, nops, nfaults, ndata, nlate, layout, ref, hasref, lastok, obs>>
 
 NoObs == [e |-> "none"]
 Flags == [c \in Cs |-> [added |-> added[c], started |-> started[c]]]
@@ -88,7 +94,8 @@ Init == /\ toc = TocC
         /\ blocks = <<>> /\ idctr = 1 /\ link = TRUE
         /\ dev = EmptyFn /\ acks = <<>> /\ inject = 0
         /\ sync = Sync0
-        /\ nops = 0 /\ nfaults = 0 /\ ndata = 0
+        /\ nops = 0 /\ nfaults = 0 /\ ndata = 0 /\ nlate = 0
+        /\ layout = [c \in Cs |-> [set |-> FALSE, lt |-> <<>>]]
         /\ ref = [c \in Cs |-> <<>>] /\ hasref = [c \in Cs |-> FALSE]
         /\ lastok = [c \in Cs |-> FALSE]
         /\ obs = NoObs
@@ -96,7 +103,7 @@ Init == /\ toc = TocC
 \* ------------------------------------------------------------------ building configurations
 libstate == <<lvars, ldef, valid, cid, hascf, added, started, pending, blocks, idctr, link>>
 envstate == <<dev, acks, inject>>
-bounds == <<nops, nfaults, ndata>>
+bounds == <<nops, nfaults, ndata, nlate, layout>>
 
 \* LogConfig(name, period_in_ms)
 NewConfig(p) == /\ phase = "config" /\ cur < NC
@@ -112,21 +119,38 @@ Uniform(s, v) == \A j \in DOMAIN s : s[j] = v
 \* p-th table entry (names within one configuration are distinct: the dict handed to data_received_cb
 \* cannot hold two values under one name), "x.y" when the template says "not in the table".
 Instance(t, p) == [k |-> t.k, f |-> t.f, s |-> t.s, a |-> t.a,
-                   n |-> IF t.miss THEN "x.y" ELSE IF t.k = "mem" THEN "m." \o ToString(p) ELSE toc[p].n]
+                   n |-> IF t.miss THEN "x.y" ELSE IF t.k = "mem" THEN "m." \o ToString(p) ELSE "v." \o ToString(p)]
+\* (the model's tables name their p-th entry "v.p"; with TocAlts one position beyond the current table may be used:
+\* a variable that only a later session's table has)
+MaxPos == Len(toc) + (IF TocAlts = {} THEN 0 ELSE 1)
+AddVarBody(c, v) ==
+    /\ conf' = [conf EXCEPT ![c].vars = Append(@, v)]
+    /\ IF v.k = "toc" /\ v.f = 0
+       THEN ldef' = [ldef EXCEPT ![c] = Append(@, v.n)] /\ UNCHANGED lvars
+       ELSE lvars' = [lvars EXCEPT ![c] = Append(@, v)] /\ UNCHANGED ldef
 AddVariable(t) ==
-    /\ phase = "config" /\ cur >= 1 /\ Len(conf[cur].vars) < Len(toc)
+    /\ phase = "config" /\ cur >= 1 /\ Len(conf[cur].vars) < MaxPos
     /\ LET tv == tpl[cur] n == Len(tv) IN
        \/ n < MaxFree
        \/ n < MaxBasic /\ t \in BasicAlpha /\ AllIn(tv, BasicAlpha)
        \/ n < MaxUniform /\ t \in BasicAlpha /\ n >= 1 /\ Uniform(tv, t)
     /\ tpl' = [tpl EXCEPT ![cur] = Append(@, t)]
-    /\ LET v == Instance(t, Len(conf[cur].vars) + 1) IN
-         /\ conf' = [conf EXCEPT ![cur].vars = Append(@, v)]
-         /\ IF v.k = "toc" /\ v.f = 0
-            THEN ldef' = [ldef EXCEPT ![cur] = Append(@, v.n)] /\ UNCHANGED lvars
-            ELSE lvars' = [lvars EXCEPT ![cur] = Append(@, v)] /\ UNCHANGED ldef
+    /\ AddVarBody(cur, Instance(t, Len(conf[cur].vars) + 1))
     /\ UNCHANGED <<toc, phase, cur, valid, cid, hascf, added, started, pending, blocks, idctr, link,
                    envstate, sync, bounds, ref, hasref, lastok, obs>>
+
+\* add_variable / add_memory on a LogConfig that has been used already (not live on the device): the next
+\* successful add_config fixes its variable list anew
+NotLive(c) == ~added[c] /\ ~started[c] /\ pending[c] = 0 /\ (hascf[c] => cid[c] \notin DOMAIN dev)
+AddVarLate(c, v) ==
+    /\ phase = "run" /\ nlate < MaxLate
+    /\ nlate' = nlate + 1
+    /\ AddVarBody(c, v)
+    /\ hasref' = [hasref EXCEPT ![c] = FALSE]
+    /\ layout' = IF Has("stale_layout") /\ v.k = "mem" THEN layout ELSE [layout EXCEPT ![c] = [set |-> FALSE, lt |-> <<>>]]
+    /\ obs' = [e |-> "addvar"]
+    /\ UNCHANGED <<toc, phase, cur, tpl, valid, cid, hascf, added, started, pending, blocks, idctr, link,
+                   envstate, sync, nops, nfaults, ndata, ref, lastok>>
 
 Go == /\ phase = "config" /\ cur = NC
       /\ phase' = "run"
@@ -177,7 +201,9 @@ TocVar(n) == [k |-> "toc", n |-> n, f |-> P!TocType(toc, n), s |-> 0, a |-> <<>>
 
 AddConfigBody(c) ==
     LET miss == FirstMissing(ldef[c])
-        upto == IF miss = 0 THEN Len(ldef[c]) ELSE miss - 1
+        \* repaired: nothing is appended unless every default-typed name resolves; "partial_resolve" (code as found):
+        \* the names before the first missing one are appended and stay, default_fetch_as is kept
+        upto == IF miss = 0 THEN Len(ldef[c]) ELSE IF Has("partial_resolve") THEN miss - 1 ELSE 0
         \* default-typed names resolved (appended) until the first one that is not in the table
         lv1 == lvars[c] \o [j \in 1..upto |-> TocVar(ldef[c][j])]
         badvar == \E j \in DOMAIN lv1 : lv1[j].k = "toc" /\ ~P!InToc(toc, lv1[j].n)
@@ -188,7 +214,8 @@ AddConfigBody(c) ==
         res == IF miss # 0 \/ badvar THEN "KeyError"
                ELSE IF sizeok /\ perok THEN "ok" ELSE "AttributeError"
     IN /\ lvars' = [lvars EXCEPT ![c] = lv1]
-       /\ ldef' = IF miss = 0 /\ ~Has("dup_readd") THEN [ldef EXCEPT ![c] = <<>>] ELSE ldef
+       /\ ldef' = IF miss = 0 /\ ~Has("dup_readd") /\ (Has("reset_when_accepted") => res = "ok")
+                THEN [ldef EXCEPT ![c] = <<>>] ELSE ldef
        /\ valid' = [valid EXCEPT ![c] = (res = "ok")]
        /\ IF res = "ok"
           THEN /\ hascf' = [hascf EXCEPT ![c] = TRUE]
@@ -206,10 +233,9 @@ AddConfigBody(c) ==
 
 AddConfig(c) ==
     /\ phase = "run" /\ link /\ nops < MaxOps
-    /\ ~InBlocks(c)                 \* a LogConfig is added once per session (re-add = after a reconnect)
     /\ nops' = nops + 1
     /\ AddConfigBody(c)
-    /\ UNCHANGED <<toc, conf, phase, cur, tpl, added, started, pending, link, envstate, sync, nfaults, ndata>>
+    /\ UNCHANGED <<toc, conf, phase, cur, tpl, added, started, pending, link, envstate, sync, nfaults, ndata, nlate, layout>>
 
 \* ------------------------------------------------------------------ LogConfig.create
 TypeByte(v) == v.f + 16 * (IF v.k = "toc" THEN v.f ELSE v.s)
@@ -266,7 +292,7 @@ Start(c) == /\ phase = "run" /\ nops < MaxOps
             /\ IF hascf[c] /\ ~link THEN UserOp(c, "start", "ok", <<>>, pending[c]) /\ UNCHANGED started
                ELSE StartBody(c)
             /\ UNCHANGED <<toc, conf, phase, cur, tpl, lvars, ldef, valid, cid, hascf, added, blocks, idctr, link,
-                           sync, nfaults, ndata, ref, hasref, lastok>>
+                           sync, nfaults, ndata, nlate, layout, ref, hasref, lastok>>
 
 Stop(c) == /\ phase = "run" /\ nops < MaxOps
            /\ nops' = nops + 1
@@ -274,7 +300,7 @@ Stop(c) == /\ phase = "run" /\ nops < MaxOps
               ELSE IF ~link THEN UserOp(c, "stop", "ok", <<>>, pending[c])
               ELSE UserOp(c, "stop", "ok", << <<4, cid[c]>> >>, pending[c])
            /\ UNCHANGED <<toc, conf, phase, cur, tpl, lvars, ldef, valid, cid, hascf, added, started, blocks,
-                          idctr, link, sync, nfaults, ndata, ref, hasref, lastok>>
+                          idctr, link, sync, nfaults, ndata, nlate, layout, ref, hasref, lastok>>
 
 Delete(c) == /\ phase = "run" /\ nops < MaxOps
              /\ nops' = nops + 1
@@ -282,7 +308,7 @@ Delete(c) == /\ phase = "run" /\ nops < MaxOps
                 ELSE IF ~link THEN UserOp(c, "delete", "ok", <<>>, pending[c])
                 ELSE UserOp(c, "delete", "ok", << <<2, cid[c]>> >>, pending[c])
              /\ UNCHANGED <<toc, conf, phase, cur, tpl, lvars, ldef, valid, cid, hascf, added, started, blocks,
-                            idctr, link, sync, nfaults, ndata, ref, hasref, lastok>>
+                            idctr, link, sync, nfaults, ndata, nlate, layout, ref, hasref, lastok>>
 
 \* close_link (or a link error): the link object is gone, acknowledgements in flight with it.
 \* A SyncLogger whose disconnected callback is registered gets Crazyflie.disconnected: disconnect()
@@ -299,15 +325,15 @@ CloseLink ==
                ELSE sync
     /\ obs' = [e |-> "disc", before |-> Flags, after |-> Flags]
     /\ UNCHANGED <<toc, conf, phase, cur, tpl, lvars, ldef, valid, cid, hascf, added, started, pending, blocks, idctr,
-                   dev, nfaults, ndata, ref, hasref, lastok>>
+                   dev, nfaults, ndata, nlate, layout, ref, hasref, lastok>>
 
 \* open_link: the handshake resets the device's log blocks (RESET) and Log.log_blocks, the table is
 \* downloaded again; LogConfig objects keep id, flags and variables.
-OpenLink ==
+OpenLink(t) ==
     /\ phase = "run" /\ ~link
-    /\ link' = TRUE /\ blocks' = <<>> /\ dev' = EmptyFn
+    /\ link' = TRUE /\ blocks' = <<>> /\ dev' = EmptyFn /\ toc' = t
     /\ obs' = [e |-> "reconnect", before |-> Flags, after |-> Flags]
-    /\ UNCHANGED <<toc, conf, phase, cur, tpl, lvars, ldef, valid, cid, hascf, added, started, pending, idctr,
+    /\ UNCHANGED <<conf, phase, cur, tpl, lvars, ldef, valid, cid, hascf, added, started, pending, idctr,
                    acks, inject, sync, bounds, ref, hasref, lastok>>
 
 \* ------------------------------------------------------------------ Log._new_packet_cb, settings channel
@@ -363,12 +389,12 @@ Deliver ==
 Inject(st) == /\ phase = "run" /\ link /\ inject = 0 /\ nfaults < MaxFaults
               /\ inject' = st /\ nfaults' = nfaults + 1
               /\ obs' = NoObs
-              /\ UNCHANGED <<toc, conf, phase, cur, tpl, libstate, dev, acks, sync, nops, ndata, ref, hasref, lastok>>
+              /\ UNCHANGED <<toc, conf, phase, cur, tpl, libstate, dev, acks, sync, nops, ndata, nlate, layout, ref, hasref, lastok>>
 
 DropAck == /\ phase = "run" /\ link /\ acks # <<>> /\ nfaults < MaxFaults
            /\ acks' = Tail(acks) /\ nfaults' = nfaults + 1
            /\ obs' = NoObs
-           /\ UNCHANGED <<toc, conf, phase, cur, tpl, libstate, dev, inject, sync, nops, ndata, ref, hasref, lastok>>
+           /\ UNCHANGED <<toc, conf, phase, cur, tpl, libstate, dev, inject, sync, nops, ndata, nlate, layout, ref, hasref, lastok>>
 
 \* ------------------------------------------------------------------ log data
 \* the device sends one data packet for a started block (in Next: payload byte j is j, so slices
@@ -385,9 +411,10 @@ Data(id, tsb, payload) ==
            n == Len(payload)
            wire == (<<id>> \o tsb) \o payload
            b == FindBlock(id)
-           lt == IF b = 0 THEN <<>> ELSE
+           cur_lt == IF b = 0 THEN <<>> ELSE
                  [j \in DOMAIN lvars[b] |-> IF Has("slice_by_stored") /\ lvars[b][j].k = "mem"
                                              THEN lvars[b][j].s ELSE lvars[b][j].f]
+           lt == IF Has("stale_layout") /\ b # 0 /\ layout[b].set THEN layout[b].lt ELSE cur_lt
            sizes == [j \in DOMAIN lt |-> P!TypeSize(lt[j])]
            off(j) == P!SeqSum(SubSeq(sizes, 1, j - 1))
            fits == P!SeqSum(sizes) <= n
@@ -405,10 +432,11 @@ Data(id, tsb, payload) ==
                    THEN CHOOSE c \in Cs : InBlocks(c) /\ cid[c] = id ELSE 0
        IN /\ obs' = [e |-> "data", wire |-> wire, types |-> types, mine |-> mine, gots |-> gots,
                      before |-> Flags, after |-> Flags, ncbs |-> 0]
+          /\ layout' = IF Has("stale_layout") /\ b # 0 /\ ~layout[b].set THEN [layout EXCEPT ![b] = [set |-> TRUE, lt |-> cur_lt]] ELSE layout
           /\ sync' = IF sync.cb /\ b = 1 /\ gots # <<>>
                      THEN [sync EXCEPT !.q = Append(@, [k |-> "sample", v |-> sample]), !.samples = Append(@, sample)]
                      ELSE sync
-    /\ UNCHANGED <<toc, conf, phase, cur, tpl, libstate, envstate, nops, nfaults, ref, hasref, lastok>>
+    /\ UNCHANGED <<toc, conf, phase, cur, tpl, libstate, envstate, nops, nfaults, nlate, ref, hasref, lastok>>
 
 DataStd(id) == Data(id, <<1, 2, 3>>, [j \in 1..DevSize(id) |-> j])
 
@@ -417,11 +445,11 @@ DataStd(id) == Data(id, <<1, 2, 3>>, [j \in 1..DevSize(id) |-> j])
 \* _is_connected = True (SyncConnect2).  An exception from add_config / start propagates to the
 \* caller and leaves _is_connected False.
 SyncConnect1 ==
-    /\ phase = "run" /\ link /\ nops < MaxOps /\ ~sync.on /\ sync.st = "none" /\ ~InBlocks(1)
+    /\ phase = "run" /\ link /\ nops < MaxOps /\ ~sync.on /\ sync.st = "none"
     /\ nops' = nops + 1
     /\ AddConfigBody(1)
     /\ sync' = [sync EXCEPT !.dcb = TRUE, !.st = IF valid'[1] THEN "connecting" ELSE "none"]
-    /\ UNCHANGED <<toc, conf, phase, cur, tpl, added, started, pending, link, envstate, nfaults, ndata>>
+    /\ UNCHANGED <<toc, conf, phase, cur, tpl, added, started, pending, link, envstate, nfaults, ndata, nlate, layout>>
 
 SyncConnect2 ==
     /\ phase = "run" /\ link /\ sync.st = "connecting"
@@ -448,11 +476,18 @@ SyncNext ==
 \* what the model checker explores: user calls only with a link; configuration 1 only through the
 \* SyncLogger when WithSync
 User(c) == link /\ ~(WithSync /\ c = 1)
-UAdd(c) == User(c) /\ AddConfig(c)
-UStart(c) == User(c) /\ Start(c)
-UStop(c) == User(c) /\ Stop(c)
-UDelete(c) == User(c) /\ Delete(c)
-SConnect1 == WithSync /\ SyncConnect1
+\* (a LogConfig is added again in the same session only when it is not live; a configuration changed by a late
+\* add_variable/add_memory is added again before it is started)
+Changed(c) == lastok[c] /\ ~hasref[c]
+\* (not explored: calls on a LogConfig that was accepted once and whose latest add_config was rejected -- it keeps
+\* its Crazyflie and id, so start/stop/delete would still send; see report)
+Stale(c) == hascf[c] /\ ~lastok[c]
+UAdd(c) == User(c) /\ (~InBlocks(c) \/ NotLive(c)) /\ AddConfig(c)
+UStart(c) == User(c) /\ ~Changed(c) /\ ~Stale(c) /\ Start(c)
+UAddVar(c, t) == User(c) /\ NotLive(c) /\ Len(conf[c].vars) < MaxPos /\ AddVarLate(c, Instance(t, Len(conf[c].vars) + 1))
+UStop(c) == User(c) /\ ~Stale(c) /\ Stop(c)
+UDelete(c) == User(c) /\ ~Stale(c) /\ Delete(c)
+SConnect1 == WithSync /\ ~Changed(1) /\ (~InBlocks(1) \/ NotLive(1)) /\ SyncConnect1
 SConnect2 == WithSync /\ SyncConnect2
 SNext == WithSync /\ SyncNext
 
@@ -463,7 +498,9 @@ Next == \/ \E p \in Periods : NewConfig(p)
         \/ \E c \in Cs : UStart(c)
         \/ \E c \in Cs : UStop(c)
         \/ \E c \in Cs : UDelete(c)
-        \/ CloseLink \/ OpenLink \/ Deliver \/ DropAck
+        \/ \E c \in Cs, t \in VarAlpha : UAddVar(c, t)
+        \/ CloseLink \/ OpenLink(toc) \/ Deliver \/ DropAck
+        \/ \E t \in TocAlts : OpenLink(t)
         \/ \E st \in Statuses : Inject(st)
         \/ \E id \in DOMAIN dev : DataStd(id)
         \/ SConnect1 \/ SConnect2 \/ SNext
